@@ -847,7 +847,7 @@ fn mk_builder<B: Buffer + BuilderFor + 'static>() -> sml_rs::SmlReaderBuilder<B>
     <B as BuilderFor>::builder()
 }
 
-pub trait BuilderFor: Buffer + Sized {
+pub trait BuilderFor: Buffer + Sized + PartialEq + core::fmt::Debug + FromIterator<u8> {
     fn builder() -> sml_rs::SmlReaderBuilder<Self>;
 }
 impl BuilderFor for Vec<u8> {
